@@ -106,6 +106,9 @@ func (p *Prog) virtualSelfCalls(fn *ssa.Function) []vCall {
 				return
 			}
 			nb := map[ssa.Value]ssa.Value{}
+			for k, v := range bind {
+				nb[k] = v // a closure of the helper still sees the helper's parameters (through its captured variables)
+			}
 			for i, prm := range h.Params {
 				if i < len(c.Call.Args) {
 					if rv, ok := resolve(c.Call.Args[i]); ok {
@@ -1252,6 +1255,30 @@ func ruleWalkParent(p *Prog, r *Report) {
 	const rule = "WALK.progress"
 	fn := p.Fn("mxj.prevValueByPath")
 	if fn == nil {
+		// renamed or re-cut: the parent walker is the unexported function both RenameKey and Remove reach that returns
+		// (map[string]interface{}, error) and walks (recursion or a loop)
+		ren, rem := p.Fn("mxj.Map.RenameKey"), p.Fn("mxj.Map.Remove")
+		if ren != nil && rem != nil {
+			r1, r2 := p.Reach(ren), p.Reach(rem)
+			var cands []*ssa.Function
+			for f := range r1 {
+				if !r2[f] || !p.InModule(f) || p.Exported(f) || len(f.Blocks) == 0 {
+					continue
+				}
+				res := f.Signature.Results()
+				if res.Len() != 2 || typeStr(res.At(0).Type()) != "map[string]interface{}" || !isErrorType(res.At(1).Type()) {
+					continue
+				}
+				if len(selfCalls(f)) > 0 || hasCycle(f) {
+					cands = append(cands, f)
+				}
+			}
+			if len(cands) == 1 {
+				fn = cands[0]
+			}
+		}
+	}
+	if fn == nil {
 		r.Anchor(rule, "mxj.prevValueByPath")
 		return
 	}
@@ -1282,6 +1309,12 @@ func ruleWalkParent(p *Prog, r *Report) {
 					}
 				}
 			}
+		}
+	}
+	if keys == nil {
+		// the walker receives the path already split
+		if ki := paramIndexByType(fn, isStringSlice); len(ki) == 1 {
+			keys = fn.Params[ki[0]]
 		}
 	}
 	n := p.Name(fn)
@@ -1497,6 +1530,24 @@ func ruleShortestMetric(p *Prog, r *Report, names []string) {
 					if c, isC := v.(*ssa.Call); isC && isCallTo(&c.Call, "strings.Count") {
 						if sep, isS := constString(c.Call.Args[1]); isS && sep == "." {
 							viaSplit = true
+						}
+					}
+					// a module helper that computes the depth of the path it is given
+					if c, isC := v.(*ssa.Call); isC {
+						if h := staticCallee(&c.Call); h != nil && p.InModule(h) && len(h.Blocks) > 0 && h != fn {
+							eachInstr(h, func(hb *ssa.BasicBlock, hi ssa.Instruction) {
+								ret, isRet := hi.(*ssa.Return)
+								if !isRet || len(ret.Results) != 1 {
+									return
+								}
+								for hv := range backwardSlice(h, ret.Results[0]) {
+									if hc, ok := hv.(*ssa.Call); ok && isCallTo(&hc.Call, "strings.Count", "strings.Split") {
+										if sep, isS := constString(hc.Call.Args[1]); isS && sep == "." {
+											viaSplit = true
+										}
+									}
+								}
+							})
 						}
 					}
 				}
